@@ -64,6 +64,7 @@ func init() {
 			obs = append(obs, c.RCONPolarity()...)
 			obs = append(obs, c.RCONReqID()...)
 			obs = append(obs, c.RCONWriterLimit()...)
+			obs = append(obs, c.RCONVerbatim()...)
 			obs = append(obs, filterObs(c.RawRead(), func(o core.Ob) bool { return strings.HasPrefix(o.Key, "net.") })...)
 			obs = append(obs, filterObs(c.NoReadAhead(), func(o core.Ob) bool { return o.Key != "scope" || true })...)
 			in := c.reachFromTypes("net", []string{"RCONConn"}, "DialRCON")
